@@ -132,7 +132,7 @@ impl Check for C06Check {
         }
     }
     fn rule(&self) -> &'static str {
-        "case = seeded CONFIGURATION (1-6 tasks, intervals from {0,1ns..1s}, equal/distinct priorities, shared/distinct/absent SINGLE variables incl. initial TRUE, 1-7 programs some without task, programs that set/clear/toggle SINGLE variables mid-cycle) x timeline of cycles (dt from {0, 1ns, interval-1, interval, interval+1, k*interval, random}) with simulator SINGLE writes and warm/cold restarts; distinct non-trivial = distinct hash of (task-set shape, due set, tie class) over cycles with >=2 tasks due or an overrun"
+        "case = seeded CONFIGURATION (1-6 tasks, intervals from {0,1ns..1s}, equal/distinct priorities, shared/distinct/absent SINGLE variables incl. initial TRUE, 1-7 programs some without task, programs that set/clear/toggle SINGLE variables mid-cycle) x timeline of cycles (dt from {0, 1ns, interval-1, interval, interval+1, k*interval, random}) with simulator SINGLE writes and warm/cold restarts; task initialisation keys spelled in upper / lower / capitalised case; distinct non-trivial = distinct hash of (task-set shape, due set, tie class) over cycles with >=2 tasks due or an overrun"
     }
     fn assumptions(&self) -> Vec<&'static str> {
         vec![
